@@ -172,6 +172,7 @@ def run(ctx):
     def add(r, e, m):
         # e: expected answer string, or a thunk calling the implementation (exceptions -> error kind)
         if callable(e):
+            ctx.mark(r)
             try:
                 e = e()
             except AssertionError:
